@@ -159,6 +159,12 @@ RecvWrite(t) ==
           /\ UNCHANGED h
   /\ UNCHANGED b
 
+\* the connection dies after Prepare and before the bytes of this part arrive
+RecvAbort(t) ==
+  /\ t.pc = "prep"
+  /\ m' = [m EXCEPT !.thr = @ \ {t}]
+  /\ UNCHANGED <<d, b, h>>
+
 \* Receive, second half: under the path lock the companion is read, updated
 \* and replaced (newLocalCompanion, addCompanionPart, writeCompanion)
 RecvRecord(t) ==
@@ -487,7 +493,7 @@ Requests == { r \in [n : Names, v : 1..3, lo : Blocks, hi : Blocks, dv : 0..3] :
 
 Next ==
   \/ \E r \in Requests : Prepare(r.n, r.v, r.lo, r.hi, r.dv)
-  \/ \E t \in m.thr : RecvWrite(t) \/ RecvRecord(t) \/ RecvComplete(t)
+  \/ \E t \in m.thr : RecvWrite(t) \/ RecvRecord(t) \/ RecvComplete(t) \/ RecvAbort(t)
   \/ \E n \in Names : ValStart(n) \/ FinTake(n) \/ TimerFire(n)
   \/ ValWait \/ ValMark \/ PutLog \/ PutMoveLck \/ PutMoveFinal \/ PutMark \/ PutRmCmp
   \/ \E n \in Names : AnsStatus(n)
@@ -562,6 +568,17 @@ SupersededH(H, n) == \E v1, v2 \in 1..3 : v1 # v2 /\ <<n, v1>> \in H.seen /\ <<n
 F_C06_NoLoss(D, H) ==
   \A nv \in H.passed : SupersededH(H, nv[1]) \/ TaintedH(H, nv[1]) \/ HeldD(D, H, nv[1], nv[2])
 
+\* a receive-log record is written only for a version that is then delivered: once
+\* the receiver is idle every logged version has arrived or is still held
+F_C06_LoggedDelivered(D, H) ==
+  H.idle => \A i \in 1..Len(D.rlog) :
+     LET n == D.rlog[i].n
+         v == D.rlog[i].v
+     IN \/ TaintedH(H, n) \/ SupersededH(H, n) \/ <<n, v>> \notin NV
+        \/ H.arrive[<<n, v>>] > 0
+        \/ D.waitf[n] = Good(n, v) \/ D.finalLck[Target(n, D.rlog[i].ren)] = Good(n, v)
+        \/ D.final[Target(n, D.rlog[i].ren)] = Good(n, v)     \* (put there by Recover completing a move)
+
 \* C09 (protocol half): the companion claims only blocks that were written into
 \* the staged body (corruption in transit is not the record's business)
 OkBody(body, have) == body # Nil /\ \A k \in have : body[k] # Z
@@ -576,7 +593,10 @@ F_C09_Complete(D, H) == \A e \in H.treated : e.stale \/ e.holes = {}
 
 \* C20: cleaning removes a partial or companion only of a version that was delivered
 F_C20_OnlyDelivered(D, H) ==
-  \A c \in H.cleaned : c.v # 0 => (LoggedD(D, c.n, c.v) \/ (<<c.n, c.v>> \in NV /\ H.arrive[<<c.n, c.v>>] > 0))
+  \A c \in H.cleaned : c.v # 0 =>
+     \/ LoggedD(D, c.n, c.v) \/ (<<c.n, c.v>> \in NV /\ H.arrive[<<c.n, c.v>>] > 0)
+     \* a stray duplicate partial of a file that is held validated may go; its companion may not
+     \/ (c.what = "part" /\ <<c.n, c.v>> \in NV /\ D.waitf[c.n] = Good(c.n, c.v))
 
 P_C01_Final == F_C01_Final(d, HView)
 P_C01_Lck == F_C01_Lck(d, HView)
@@ -586,6 +606,7 @@ P_C05_LogOnce == F_C05_LogOnce(d, HView)
 P_C04_Order == F_C04_Order(d, HView)
 P_C06_NoStrand == F_C06_NoStrand(d, HView)
 P_C06_NoLoss == F_C06_NoLoss(d, HView)
+P_C06_LoggedDelivered == F_C06_LoggedDelivered(d, HView)
 P_C09_Sound == F_C09_Sound(d, HView)
 P_C09_Complete == F_C09_Complete(d, HView)
 P_C20_OnlyDelivered == F_C20_OnlyDelivered(d, HView)
